@@ -353,6 +353,35 @@ def tag_stack_slots(ds, tagname="ctor"):
 
 
 # ---------------------------------------------------------------------------
+# what torch.utils.data.get_worker_info() says inside a dataloader worker
+# ---------------------------------------------------------------------------
+class MockWorkerInfo:
+    """while active, torch.utils.data.get_worker_info() - however it was imported - returns a
+    WorkerInfo(id, num_workers, seed, dataset) exactly as inside a worker process of a DataLoader(num_workers=n) (it
+    reads the module global torch.utils.data._utils.worker._worker_info, which _worker_loop sets); wi = None: no-op
+    (main process / manual call).  The hook of the transforms consults the worker info, so a simulated worker has to
+    be run under every answer a real one can get."""
+
+    def __init__(self, wi, seed=0, dataset=None):
+        self.wi = wi
+        self.seed = seed
+        self.dataset = dataset
+
+    def __enter__(self):
+        if self.wi is None:
+            return self
+        import torch.utils.data._utils.worker as w
+        self.mod = w
+        self.prev = w._worker_info
+        w._worker_info = w.WorkerInfo(id=int(self.wi[0]), num_workers=int(self.wi[1]), seed=int(self.seed), dataset=self.dataset)
+        return self
+
+    def __exit__(self, *a):
+        if self.wi is not None:
+            self.mod._worker_info = self.prev
+
+
+# ---------------------------------------------------------------------------
 # patched np.random.default_rng
 # ---------------------------------------------------------------------------
 class PatchedDefaultRng:
